@@ -50,6 +50,7 @@ DIMS = collections.OrderedDict([
     ('resp', ['full', 'idx_list', 'idx_neg', 'idx_slice']),
     ('scaling', ['none', 'ref', 'ref_ref0', 'ref_lt_ref0', 'neg_scaler', 'arr_scaler', 'units']),
     ('api', ['problem', 'problem_dscale', 'driver', 'jacvec']),
+    ('rhsck', [None, 'on', 'opts']),
 ])
 
 BASES = [
@@ -61,6 +62,7 @@ BASES = [
     {'topo': 'two', 'wiring': 'conn_2d_tuple', 'units': 'degC_degF', 'scaling': 'ref_ref0',
      'api': 'driver', 'mode': 'rev'},
     {'topo': 'cycle2', 'hier': 'cycG', 'kinds': 'allimp', 'nl': 'Newton', 'mode': 'rev'},
+    {'topo': 'cycle_tail', 'hier': 'cycG', 'rhsck': 'on', 'mode': 'rev'},
 ]
 
 
